@@ -22,7 +22,7 @@ E["C05"] = dict(
     note="Not modelled (run and judged by the sink oracle only): std.c's own handlers (sio/tio/pio buffering, real pipes), the read side beyond sharing the chain, main-rule programs (BEGIN only).",
     tech="Lean 4 proof (invariants by induction over op histories x adversarial handler) + property oracle on the real handler log + differential correspondence")
 E["C16"] = dict(
-    text="Lean 4 theorems (Props/C16.lean 28 + Props/C16Htb.lean 35). RBT: a functional model that reproduces rbt.c's insert/adjust and "
+    text="Lean 4 theorems (Props/C16.lean 30 + Props/C16Htb.lean 39). RBT: a functional model that reproduces rbt.c's insert/adjust and "
          "delete_pair/adjust_for_delete shape-for-shape; red-black invariant preserved by insert/upsert/update/ensert/delete/clear, hence for every "
          "history (reachable_inv); height <= 2*log2(n+1); refinement to the sorted association list incl. return classes (history_refines); "
          "forward/backward walk and the getfirst/getnext iterator enumerate in order, each pair once. HTB: bucket-list model of htb.c for an "
